@@ -1,0 +1,19 @@
+// Copyright IBM Corp. 2020, 2025
+// SPDX-License-Identifier: MPL-2.0
+
+//go:build verif
+
+package wal
+
+// VerifSched, when set, is called at named schedule points so that a
+// verification harness can order goroutines deterministically at exactly the
+// places where interleavings matter (between a method's closed-check and its
+// use of the state, before taking the write lock, after publishing a new
+// state). Only compiled with the "verif" build tag.
+var VerifSched func(point string)
+
+func verifSched(point string) {
+	if f := VerifSched; f != nil {
+		f(point)
+	}
+}
